@@ -118,6 +118,13 @@ def check_rsl(rsl, label, zmax=1.0, zmin=0.0):
         return viol, info
 
     def relation(args_s, args_l):
+        try:
+            return _relation(args_s, args_l)
+        except (ArithmeticError, IndexError) as e:
+            # a part that raises at a point of [0,1) (loc is needed at x = 0: its value there is the delta coefficient) is not a finite real scalar
+            raise _PartRaised(f"{label}: evaluating loc/sing on the partition raised {type(e).__name__}: {str(e)[:80]} [{_fn_id(rsl.loc)}]")
+
+    def _relation(args_s, args_l):
         res = []
         for a, b in zip(PART[:-1], PART[1:]):
             if rsl.sing is not None:
@@ -192,6 +199,10 @@ def _states_deep(seed):
     return out
 
 
+class _PartRaised(Exception):
+    pass
+
+
 def execute(st):
     if st["t"] == "split":
         return _split(st)
@@ -238,7 +249,10 @@ def execute(st):
                 # eta(z) = Q2/(4 m2) (1/z - 1) - 1 <= ETA_MAX
                 zmin = 1.0 / (1.0 + (ETA_MAX + 1.0) * 4 * m2 / st["Q2"])
             label = f"{cname} order {o} nf={getattr(cfe.coeff, 'nf', '?')} ({name} {st['process']} {st['scheme']} Q2={st['Q2']} x={st['x']})"
-            vs, info = check_rsl(rsl, label, zmax, zmin)
+            try:
+                vs, info = check_rsl(rsl, label, zmax, zmin)
+            except _PartRaised as e:
+                vs, info = [("raises", str(e))], {k: 0.0 for k in agg}
             for k in agg:
                 agg[k] = max(agg[k], info[k])
             nrej += info.get("n_rejected_explicitly", 0)
@@ -262,7 +276,10 @@ def _split(st):
             rsl = fnc(st["nf"])
             nk += 1
             cellsig.append(f"split:{lab}:{st['nf']}")
-            vs, info = check_rsl(rsl, f"splitting kernel {lab} nf={st['nf']}")
+            try:
+                vs, info = check_rsl(rsl, f"splitting kernel {lab} nf={st['nf']}")
+            except _PartRaised as e:
+                vs, info = [("raises", str(e))], {k: 0.0 for k in agg}
             for k in agg:
                 agg[k] = max(agg[k], info[k])
             for what, msg in vs[:1]:
